@@ -2,12 +2,13 @@
 
 package ed25519
 
-// C09 / Ed25519 public keys at verification: pointR1.FromBytes (the decoder
-// Verify uses for the key) accepts only canonical RFC 8032 5.1.3 encodings of
-// curve points and ToBytes gives the parsed bytes back; and Verify itself
-// refuses every key string that is not such an encoding even when the
-// signature (identity, 0) would verify under the point the string aliases.
-// Oracle: strict decoder of ref/c09ref on ref/ecurve.
+// C09 / Ed25519, the decoder Verify uses for public keys, in-package: pointR1.FromBytes
+// accepts only canonical RFC 8032 5.1.3 encodings of curve points, the decoded
+// coordinates are the ones the encoding denotes and ToBytes gives the parsed
+// bytes back; also on a reused pointR1. This file is the only C09 file that names
+// unexported identifiers of sign/ed25519 (pointR1 and its fields, FromBytes,
+// ToBytes); the exported-API unit ed25519 (Verify) lives in the external test
+// package and does not depend on it. Oracle: strict decoder of ref/c09ref.
 
 import (
 	"testing"
@@ -18,14 +19,13 @@ import (
 	"github.com/cloudflare/circl/internal/verifref/fpx"
 )
 
-func TestVerifC09_ed25519(t *testing.T) {
-	r := verifmc.Start(t, "C09", "ed25519")
+func TestVerifC09_ed25519_point(t *testing.T) {
+	r := verifmc.Start(t, "C09", "ed25519_point")
 	defer r.Finish()
 	r.Rule("32-byte strings: [a]G for a in {0,1,2,3,L-1,(L+1)/2,5 SHAKE values} (reference) and public keys made by the library from 5 seeds, all 256 single-bit flips of 4 (quick) / 11 (thorough) of them, " +
 		"the whole 8-torsion alone and added to [s0]G, x=0 with the sign bit, all 19 values y in [p,2^255) with both signs (complete), y+p aliases of the torsion points with y<19, y without x; " +
-		"through pointR1.FromBytes/ToBytes and through Verify with the signature (encoding of the identity, S=0), which verifies exactly for keys of order dividing 8 whatever the message; " +
 		"every curve point with x or y in {0,+-1,+-sqrt(-1),+-j (j<64)} and the 8 small-order points, built by the reference and serialised by the library's ToBytes (must decode again); " +
-		"FromBytes also into an object that already holds the nearest valid value, and before it; distinct = distinct (entry point, input bytes)")
+		"through pointR1.FromBytes/ToBytes, fresh and into an object that already holds the nearest valid value, and before it; distinct = distinct input bytes")
 	c := ecurve.Edwards25519()
 	cases := c09ref.RFC8032Cases(c, c09ref.EdOptions{FlipBases: r.Pick(4, 11)})
 	// constructed special points (x or y in {0, +-1, +-sqrt(-1), +-j, j<64}; the 8 small-order points): the
@@ -36,7 +36,7 @@ func TestVerifC09_ed25519(t *testing.T) {
 		copy(P.y[:], fpx.ToLE(sp.P.Y.A, 32))
 		P.z[0] = 1
 		P.ta, P.tb = P.x, P.y
-		enc := make([]byte, paramB)
+		enc := make([]byte, 32)
 		if err := P.ToBytes(enc); err != nil {
 			t.Fatal(err)
 		}
@@ -67,7 +67,7 @@ func TestVerifC09_ed25519(t *testing.T) {
 				return verifmc.DecResult{}
 			}
 			res := verifmc.DecResult{Accepted: true}
-			out := make([]byte, paramB)
+			out := make([]byte, 32)
 			if err := P.ToBytes(out); err != nil {
 				res.Note = "ToBytes-fails"
 			}
@@ -82,7 +82,7 @@ func TestVerifC09_ed25519(t *testing.T) {
 				return verifmc.DecResult{}
 			}
 			res := verifmc.DecResult{Accepted: true}
-			out := make([]byte, paramB)
+			out := make([]byte, 32)
 			if err := P.ToBytes(out); err != nil {
 				res.Note = "ToBytes-fails"
 			}
@@ -93,33 +93,12 @@ func TestVerifC09_ed25519(t *testing.T) {
 			}
 			return res
 		}})
-	// At verification: sig = (R = identity, S = 0) satisfies [S]B = R + [h]A for every A
-	// with [8]A = O when 8 | h, and for A = identity always. A key string is "accepted"
-	// here when Verify returns true for one of a few messages.
-	sig := make([]byte, SignatureSize)
-	sig[0] = 1
-	msgs := [][]byte{{}, []byte("a"), []byte("verif-c09"), verifmc.Msg(33)}
-	for j := 0; j < 12; j++ {
-		msgs = append(msgs, verifmc.Shake("c09-ed25519-msg"+string(rune('a'+j)), 8))
-	}
-	r.CheckDecoder(verifmc.DecSpec{Entry: "ed25519.Verify/public-key", Cases: dec, Ref: ref,
-		MustAccept: func(string) bool { return false },
-		Lib: func(in []byte) verifmc.DecResult {
-			for _, m := range msgs {
-				if Verify(PublicKey(in), m, sig) {
-					r.Count("verify_true_with_small_order_key", 1)
-					return verifmc.DecResult{Accepted: true, Reenc: in}
-				}
-			}
-			return verifmc.DecResult{}
-		}})
-	r.RequireCounter("in:flip", 2*4*250)
-	r.RequireCounter("in:field-overflow", 60)
-	r.RequireCounter("in:torsion", 24)
-	r.RequireCounter("in:alias", 2*4)
-	r.RequireCounter("in:valid-lib", 2*5)
-	r.RequireCounter("verify_true_with_small_order_key", 4)
+	r.RequireCounter("in:flip", 4*250)
+	r.RequireCounter("in:field-overflow", 30)
+	r.RequireCounter("in:torsion", 12)
+	r.RequireCounter("in:alias", 4)
+	r.RequireCounter("in:valid-lib", 5)
 	r.RequireCounter("accepted", 500)
-	r.RequireCounter("in:special-lib", 2*100)
+	r.RequireCounter("in:special-lib", 100)
 	r.RequireCounter("reused_receiver_cases", 1000)
 }
